@@ -7,8 +7,10 @@ from framework import RuleResult
 RAWEXPR = "ast::RawExpr"
 BMOD = ["eval::bind"]
 SMOD = ["eval::scope"]
-SCOPE_FNS = ("eval::scope::ScopeStack::declare", "eval::scope::ScopeStack::assign",
-             "eval::scope::ScopeStack::get")
+# scope-module entry points, filled in by run() from what the functions do to
+# the scope map (see scope_api): [writers..] and [all]
+SCOPE_WRITERS = []
+SCOPE_FNS = []
 BINDABLE = {"Var", "Index", "RangeIndex", "Prop", "Object", "List"}
 NOT_BINDABLE = {"Null", "Bool", "Int", "Str", "BinaryOp", "Range", "Func", "Call"}
 PARAM_EXTRA_REJECT = {"Index", "RangeIndex", "Prop"}
@@ -104,7 +106,7 @@ def rule_R20_1(ctx):
         if f.module.startswith(SMOD[0]):
             continue
         for c in f.calls():
-            if not c.is_ptr and c.res in SCOPE_FNS[:2]:
+            if not c.is_ptr and c.res in SCOPE_WRITERS:
                 if underscore_tests(f.root_fn()):
                     r.ok()
                 else:
@@ -118,7 +120,7 @@ def rule_R20_2(ctx):
     r = RuleResult("R20.2", "declare refuses a name already in the innermost "
                    "scope and reports where it was declared",
                    "an overwriting declare silently redefines a name")
-    f = prog.fns.get("eval::scope::ScopeStack::declare")
+    f = None
     if f is None:
         cands = [g for g in prog.hand_fns() if g.module.startswith(SMOD[0])
                  and any("HashMap" in (c.res_full or "") and (c.res or "").endswith("::insert") for c in g.calls())]
@@ -262,8 +264,40 @@ def rule_R20_3(ctx):
     return r
 
 
+SCOPE_MAP = "HashMap::<std::string::String, (eval::value::SourcedValue"
+
+
+UPDATERS = set()
+
+
+def scope_api(prog):
+    """Classify the scope module's functions by what they do to the scope
+    map: (inserters, lookups).  A lookup reads or updates existing bindings
+    and reports a miss as None/false."""
+    ins, look = set(), {}
+    for f in prog.full_fns(generated=False):
+        if not f.module.startswith(SMOD[0]) or f.is_closure:
+            continue
+        names = set()
+        for c in f.calls():
+            if SCOPE_MAP in (c.res_full or ""):
+                names.add((c.res or "").split("::")[-1])
+        if names & {"insert", "entry", "extend"}:
+            ins.add(f.path)
+        elif names & {"get", "get_mut", "contains_key"}:
+            if "get_mut" in names:
+                UPDATERS.add(f.path)
+            rt = f.locals[0] if f.locals else ""
+            if rt.startswith("std::option::Option<"):
+                look[f.path] = "option"
+            elif rt == "bool":
+                look[f.path] = "bool"
+    return ins, look
+
+
 def rule_R20_4(ctx):
     prog = ctx.prog
+    inserters, lookups = scope_api(prog)
     r = RuleResult("R20.4", "a failed lookup or assignment of a name is an "
                    "`Undefined` error",
                    "a silent fallback (null, or declaring on assignment) "
@@ -273,14 +307,17 @@ def rule_R20_4(ctx):
         if f.module.startswith(SMOD[0]) or f.from_expansion:
             continue
         for c in f.calls():
-            if c.is_ptr or c.res not in ("eval::scope::ScopeStack::get", "eval::scope::ScopeStack::assign"):
+            if c.is_ptr or c.res not in lookups:
                 continue
             n += 1
             if c.target is None or f.term(c.target)["k"] != "switch":
                 r.unproven.append("%s: result of %s not tested directly" % (f.path, c.res))
                 continue
             info = f.switch_info(c.target)
-            if c.res.endswith("::get"):
+            if not info or (lookups[c.res] == "option") != (info["kind"] == "discr"):
+                r.unproven.append("%s: result of %s not tested directly" % (f.path, c.res))
+                continue
+            if lookups[c.res] == "option":
                 miss = info["otherwise"]
                 for nme, tgt in info["cases"]:
                     if nme == "None":
@@ -295,7 +332,7 @@ def rule_R20_4(ctx):
             avoid = [hit] if hit is not None else []
             reach = f.reach_from(miss, avoid=avoid)
             und = [1 for bb, i, pl, kd, ao, sp in f.aggregates(ERR, "Undefined") if bb in reach]
-            decl = [d for d in f.calls() if d.bb in reach and (d.res or "").endswith("ScopeStack::declare")]
+            decl = [d for d in f.calls() if d.bb in reach and d.res in inserters]
             r.inst("%s: miss edge of %s -> Undefined=%s" % (f.path, c.res.split("::")[-1], bool(und)))
             if und and not decl:
                 r.ok()
@@ -304,7 +341,7 @@ def rule_R20_4(ctx):
                        % (f.path, c.res.split("::")[-1], bool(und), bool(decl)),
                        "when %s finds no binding, %s must raise Undefined "
                        "(and must not declare the name)" % (c.res, f.path), where=c.loc)
-    r.require_floor("scope lookups/assignments outside the scope module", n, 4)
+    r.require_floor("scope lookups/assignments outside the scope module", n, 2)
     return r
 
 
@@ -313,12 +350,23 @@ def rule_R20_5(ctx):
     r = RuleResult("R20.5", "all declarations go through one function; the "
                    "scope map is inserted into only by ScopeStack::declare",
                    "a second writer can bypass the duplicate check and the `_` test")
+    inserters, lookups = scope_api(prog)
+    r.inst("scope-module functions that insert names: %s" % sorted(inserters))
+    if len(inserters) == 1:
+        r.ok()
+    elif not inserters:
+        r.anchor_missing("the scope module's declaring function (inserts into the scope map)")
+    else:
+        r.fail("inserters=%s" % ",".join(sorted(inserters)),
+               "%d functions of the scope module insert names into a scope" % len(inserters))
     decl_callers = set()
     for f in prog.full_fns(generated=False):
+        if f.module.startswith(SMOD[0]):
+            continue
         for c in f.calls():
-            if not c.is_ptr and (c.res or "").endswith("ScopeStack::declare"):
+            if not c.is_ptr and c.res in inserters:
                 decl_callers.add(f.root_fn().path)
-    r.inst("ScopeStack::declare is called from %s" % sorted(decl_callers))
+    r.inst("the declaring function is called from %s" % sorted(decl_callers))
     if len(decl_callers) == 1:
         r.ok()
     else:
@@ -332,7 +380,8 @@ def rule_R20_5(ctx):
                     and (c.res or "").split("::")[-1] in ("insert", "entry", "extend", "get_mut", "remove"):
                 ins.add((f.path, (c.res or "").split("::")[-1]))
     r.inst("scope map writers: %s" % sorted(ins))
-    bad = [x for x in ins if x[0] not in ("eval::scope::ScopeStack::declare", "eval::scope::ScopeStack::assign")]
+    bad = [x for x in ins if not (prog.fns[x[0]].root_fn().module.startswith(SMOD[0]))
+           or (x[1] in ("insert", "entry", "extend") and prog.fns[x[0]].root_fn().path not in inserters)]
     if not bad and ins:
         r.ok()
     else:
@@ -357,6 +406,10 @@ def run(ctx):
     import anchors
     BMOD[0] = anchors.binder_module(ctx.prog)
     SMOD[0] = anchors.scope_module(ctx.prog)
+    UPDATERS.clear()
+    ins_, look_ = scope_api(ctx.prog)
+    SCOPE_WRITERS[:] = sorted(ins_) + sorted(UPDATERS)
+    SCOPE_FNS[:] = sorted(ins_) + sorted(look_)
     return [rule_R20_1(ctx), rule_R20_2(ctx), rule_R20_3(ctx), rule_R20_4(ctx), rule_R20_5(ctx),
             rule_R20_6(ctx)]
 
